@@ -5,12 +5,58 @@ use crate::engine::idehost::*;
 use crate::engine::*;
 use crate::gen::scoped::Workspace;
 use crate::Property;
+use crate::model::lspdoc::ClientDoc;
 use serde_json::{json, Value};
 use std::collections::BTreeSet;
+use std::sync::Arc;
+
+/// The server's line maps of the workspace files (through the `verif` hook) and the client-side
+/// position table of each: "LSP responses after conversion" are observed through them.
+pub struct Conv {
+    maps: Vec<Option<(Arc<glas::verif::LineMap>, Vec<(usize, (u32, u32))>)>>,
+}
+
+impl Conv {
+    pub fn new(ws: &Workspace) -> Conv {
+        let mut vfs = glas::verif::Vfs::new();
+        let maps = ws
+            .files
+            .iter()
+            .map(|f| {
+                // the server normalises line endings: documents with CR are C13/C14's subject
+                if f.module.is_none() || f.text.contains('\r') {
+                    return None;
+                }
+                let file = vfs.set_path_content(ide::VfsPath::new(&f.path), f.text.clone());
+                let lm = vfs.line_map_for_file(file);
+                let doc = ClientDoc::new(&f.text);
+                let mut table: Vec<(usize, (u32, u32))> = doc.positions().into_iter().map(|(p, o)| (o, (p.line, p.col))).collect();
+                table.sort();
+                table.dedup_by_key(|t| t.0);
+                Some((lm, table))
+            })
+            .collect();
+        Conv { maps }
+    }
+    /// the LSP range the server sends for `s..e` of file `f` must be the client's positions of s and e
+    fn check(&self, f: u32, s: u32, e: u32) -> Result<(), String> {
+        let Some(Some((lm, table))) = self.maps.get(f as usize) else { return Ok(()) };
+        let (sl, sc, el, ec) = glas::verif::to_range(lm, s, e);
+        let client = |o: u32| table.binary_search_by_key(&(o as usize), |(off, _)| *off).ok().map(|i| table[i].1);
+        let (Some(cs), Some(ce)) = (client(s), client(e)) else { return Ok(()) };
+        if (sl, sc) != cs || (el, ec) != ce {
+            return Err(format!(
+                "is sent to the client as {}:{}-{}:{}, which in the client's document is not {}..{} (that is {}:{}-{}:{})",
+                sl, sc, el, ec, s, e, cs.0, cs.1, ce.0, ce.1
+            ));
+        }
+        Ok(())
+    }
+}
 
 pub struct C20;
 
-fn check_answer(ws: &Workspace, toks: &[BTreeSet<(u32, u32)>], q: &Q, file: u32, pos: u32, a: &Answer) -> Result<u64, Failure> {
+fn check_answer(ws: &Workspace, toks: &[BTreeSet<(u32, u32)>], conv: &Conv, q: &Q, file: u32, pos: u32, a: &Answer) -> Result<u64, Failure> {
     let case = || json!({"workspace": ws_json(ws), "query": format!("{:?}", q), "file": file, "offset": pos});
     let mut n = 0u64;
     let mut focus: Option<(u32, u32, u32)> = None;
@@ -33,6 +79,9 @@ fn check_answer(ws: &Workspace, toks: &[BTreeSet<(u32, u32)>], q: &Q, file: u32,
         }
         if !wf.text.is_char_boundary(s as usize) || !wf.text.is_char_boundary(e as usize) {
             return Err(fail("does not start/end on a character boundary".into(), "char-boundary"));
+        }
+        if let Err(msg) = crate::engine::panics::catch(|| conv.check(f, s, e)).unwrap_or_else(|p| Err(format!("cannot be converted to an LSP range: {}", p.message))) {
+            return Err(fail(msg, "lsp-conversion"));
         }
         match kind {
             RK::DefFocus => focus = Some((f, s, e)),
@@ -74,7 +123,7 @@ impl Property for C20 {
         "C20"
     }
     fn rule(&self) -> String {
-        "cases: the workspaces of the sweep-based properties (scope-aware generated incl. multi-package and non-ASCII comments/strings, corpus, and broken variants: damage, truncation, bad imports, non-ASCII identifiers) x every token-boundary offset (capped by a stream-chosen subset) x every query kind. Oracle for every range in every answer: names a file of the workspace; 0 <= start <= end <= len(file); both ends on char boundaries; a definition's focus lies inside its full range; name-like ranges (references, highlights, rename edits, prepare-rename, hover, semantic highlights, non-empty completion replacement ranges) equal the range of exactly one token of the file; empty diagnostics only at a token boundary / end of input. evaluations = ranges validated. Non-trivial = answer carrying >= 1 range from a workspace that is broken or contains non-ASCII text; distinct by (workspace hash, query, offset).".into()
+        "cases: the workspaces of the sweep-based properties (scope-aware generated incl. multi-package and non-ASCII comments/strings, corpus, and broken variants: damage, truncation, bad imports, non-ASCII identifiers) x every token-boundary offset (capped by a stream-chosen subset) x every query kind. Oracle for every range in every answer: names a file of the workspace; 0 <= start <= end <= len(file); both ends on char boundaries; a definition's focus lies inside its full range; name-like ranges (references, highlights, rename edits, prepare-rename, hover, semantic highlights, non-empty completion replacement ranges) equal the range of exactly one token of the file; empty diagnostics only at a token boundary / end of input; and, after conversion with the server's own line map (LSP responses), the (line, UTF-16 column) pair sent for each end is the position an independent client-side model assigns to that offset. evaluations = ranges validated. Non-trivial = answer carrying >= 1 range from a workspace that is broken or contains non-ASCII text; distinct by (workspace hash, query, offset).".into()
     }
     fn assumptions(&self) -> Vec<String> {
         vec!["token ranges come from the repository's own lexer (C01 establishes that the tree's leaves are exactly those tokens)".into()]
@@ -97,10 +146,11 @@ impl Property for C20 {
             let mut c = Choices::new(bytes);
             let (ws, _log) = gen_broken(&mut c, &corpus_files, &cfg);
             let toks: Vec<BTreeSet<(u32, u32)>> = ws.files.iter().map(|f| all_tokens(&f.text).into_iter().collect()).collect();
+            let conv = Conv::new(&ws);
             let interesting = is_broken(&ws) || ws.files.iter().any(|f| !f.text.is_ascii());
             let wh = hash_str(&ws_json(&ws).to_string());
             let res = sweep(ctx, &ws, 60, &mut c, &mut |ctx, q, file, pos, a| {
-                let n = check_answer(&ws, &toks, q, file, pos, a)?;
+                let n = check_answer(&ws, &toks, &conv, q, file, pos, a)?;
                 ctx.evals(n);
                 if n > 0 && interesting {
                     ctx.nontrivial(mix64(wh ^ hash_str(&format!("{:?}{}{}", q, file, pos))));
@@ -131,7 +181,8 @@ impl Property for C20 {
         let toks: Vec<BTreeSet<(u32, u32)>> = ws.files.iter().map(|f| all_tokens(&f.text).into_iter().collect()).collect();
         let empty: [u8; 0] = [];
         let mut c = Choices::new(&empty);
-        let r = sweep(ctx, &ws, usize::MAX, &mut c, &mut |_, q, file, pos, a| check_answer(&ws, &toks, q, file, pos, a).map(|_| ()));
+        let conv = Conv::new(&ws);
+        let r = sweep(ctx, &ws, usize::MAX, &mut c, &mut |_, q, file, pos, a| check_answer(&ws, &toks, &conv, q, file, pos, a).map(|_| ()));
         match r {
             Err(f) if f.sig.get("kind").map(|k| k == "panic").unwrap_or(false) => Ok(()),
             other => other.map(|_| ()),
